@@ -55,10 +55,13 @@ claim("C08", "other",
       "Decides, for every kind with a NumPy template and every tuple of operand dtypes over float16/32/64, complex64/128, bool (quick: homogeneous and real/complex pairings; thorough: all mixes), that the static type obtained by abstract interpretation of Expr.get_type/typesystem.Type equals the dtype NumPy's promotion rules give the parsed template; that constants are cast unconditionally to the static type of their like; that debug assertions are wired to the same expression's type. Value-dependent dtypes are not decided.",
       "trusted: NumPy promotion oracle (NEP 50 on numpy scalars) in rules/C08.py, sa/absint.py; sub-expressions compose by induction over operand types",
       "abstract interpretation of the typing rules + table comparison with a promotion oracle", "DESIGN.md §3/C08")
+claim("C03", "proof",
+      "Proves each listed symmetry / cross-function identity for all inputs at once as equality of signed normal forms of the expanded expression DAGs (complex sub-operations expanded by the package's own definitions): rotation identities under no assumption but non-NaN inputs and the property's own case split; conjugation, oddness, evenness for non-zero, non-NaN components. Quick: complex128/float64; thorough adds complex64/float32, untyped signatures and context parameters.",
+      "trusted: package tracer/expansion as front end; exactness of the sign algebra in IEEE RN arithmetic; sign symmetry of native atan2/sin/cos; not decided: zero components for conjugation/oddness, sign of exactly cancelling sums",
+      "normal-form equality (exact sign algebra) over the expression IR obtained through the package's tracer", "DESIGN.md §3/C03")
 for p, why in dict(
     C01="bounds ULP error of libm-based formulas over all complex inputs: a numeric quantity no static argument in reach can bound",
-    C02="same on the real line; float32 exhaustion is execution, not static analysis",
-    C03="(not built yet)", C12="(not built yet)",
+    C02="same on the real line; float32 exhaustion is execution, not static analysis", C12="(not built yet)",
     C14="metric laws of integer arithmetic on runtime bit patterns; nothing structural beyond a width table",
 ).items():
     na(p, why)
